@@ -211,6 +211,11 @@ func init() {
 				pathsOf[k] = paths
 				before[k] = dumpAll(pe.set, paths)
 			}
+			if (ci*7+int(k)*3)%4 == 1 {
+				// an execution of the same program whose writer gives up part-way (a closed connection):
+				// whatever it leaves behind must not show in any later execution
+				pe.runInto(ec, &failingWriter{left: (ci*13 + int(k)*5) % 23})
+			}
 			res, perr := pe.run(ec, nil)
 			if perr != "" && oracle == "" {
 				oracle = fmt.Sprintf("call %d (program %d): %s", ci, k, perr)
